@@ -4,25 +4,25 @@ import json, subprocess, os
 V = os.path.dirname(os.path.abspath(__file__))
 
 CLAIMED = {
- "C01": ("exploration", "4.1, 5 C01", "seeded ledger histories vs. reference model (deterministic simulation)",
+ "C01": ("exploration", "4.1, 5 C01", "seeded ledger histories vs. reference model with injected disk I/O errors (deterministic simulation)",
          "Real visor+bolt nodes driven through seeded histories of valid, mutated, duplicated and re-ordered transactions and blocks (incl. key-holder forged blocks and amounts near 2^64); after every step the big-integer sum of the unspent set must equal the genesis volume and every accepted transaction must have input coins == output coins on the node's own pre-state.",
          "Samples histories (20-300 operations, 1-3 nodes); the reference model's coin rules and the harness' own encoder/hash are trusted; network layer not involved (blocks/txns go to visor methods)."),
- "C02": ("exploration", "4.1, 5 C02", "seeded ledger histories vs. reference model (deterministic simulation)",
+ "C02": ("exploration", "4.1, 5 C02", "seeded ledger histories vs. reference model with injected disk I/O errors (deterministic simulation)",
          "After every step of every seeded history the node's unspent set (ids, owner, coins, hours, creation seq/time) must equal the model's created-minus-spent set; output ids are recomputed with the harness encoder; blocks with any double-spend shape must be refused.",
          "Sampling, not enumeration; model trusted; hash collisions out of reach."),
  "C03": ("exploration", "4.1, 5 C03", "seeded ledger histories with simulated clock jumps and forged block times vs. big-integer hour model",
          "For every accepted block (publisher-made on the fake clock with jumps up to 50 years, or key-holder forged with arbitrary times up to 2^64) output hours must not exceed exact accrued input hours at the previous block time; accrued hours reported by the node must match hours + coins*dt/3.6e9 and never decrease; no pooled transaction has overflowing output hours.",
          "One recorded known finding (publisher-signed output-hour sum wrap, documented legacy). Region where 64-bit intermediates overflow but the exact value fits is counted as undecided."),
- "C04": ("exploration", "4.1, 5 C04", "seeded block-mutation injection into live histories vs. reference model, state fingerprint and CheckDatabase",
+ "C04": ("exploration", "4.1, 5 C04", "seeded block-mutation injection into live histories (incl. re-offered refused blocks and reverse-order pairs) vs. reference model, state fingerprint and CheckDatabase; disk I/O errors at transaction begin",
          "At random points of random histories a key-holding forger submits the valid next block mutated in one header field, the signature, the transaction list or the signing key (23 mutation kinds); the node's verdict must match the model's (own textbook secp256k1), a rejected block must leave the logical content of every bolt bucket unchanged, an accepted block must be stored byte-for-byte with a signature that verifies over the stored header, and visor.CheckDatabase must pass at the end.",
          "Strict-mode (follower) nodes; the arbitrating publisher only receives its own blocks. Sampling."),
  "C05": ("exploration", "4.1, 5 C05", "seeded pool histories on a real publisher with an independent follower and selection oracle",
          "Pools with conflicts, soft/hard-invalid, stale and fat transactions; every block from CreateAndExecuteBlock must be accepted by a strict follower on the same chain, contain only eligible transactions, respect the size limit, be ordered by fee/kB then hash, contain no conflicting pair, and omit an eligible transaction only when an earlier one conflicts with it or the size limit cuts it.",
          "For transitive conflict chains only pairwise consistency is required (statement is silent). Sampling."),
- "C06": ("exploration", "4.1, 5 C06", "seeded interleavings of inject/block/refresh/remove-invalid/restart vs. reference pool model",
+ "C06": ("exploration", "4.1, 5 C06", "seeded interleavings of inject/block/refresh/remove-invalid/restart vs. reference pool model, with injected disk I/O errors",
          "Admission verdict and class (hard / soft-but-admitted / user) of every submission, pool content and validity flags after every step, refresh's newly-valid list and remove-invalid's removals are compared with the model; a refused submission must leave the database unchanged.",
          "Sampling; model trusted."),
- "C07": ("exploration", "4.1, 5 C07", "seeded ledger histories with all derived views recomputed from the reference model",
+ "C07": ("exploration", "4.1, 5 C07", "seeded ledger histories with all derived views recomputed from the reference model, with injected disk I/O errors",
          "After random steps: per-address unspent index, address count, metadata, confirmed and predicted balances, history of outputs (creating/spending block and transaction), per-address output history, transaction status, transaction count and block queries by seq/hash/range/last-N are compared with values derived from the model's chain and pool; restarts in the history exercise index/history re-initialisation.",
          "Paging not generated (C29). Balance queries while the pool holds a stale transaction may legitimately fail and are skipped."),
  "C08": ("fault_enumeration", "4.4, 5 C08", "crash-point enumeration over recorded bolt file images (deterministic simulation with fault injection)",
@@ -31,27 +31,27 @@ CLAIMED = {
  "C17": ("exploration", "4.3, 5 C17", "seeded wallet operation histories with reload/lock faults, metamorphic one-batch oracle",
          "Deterministic, bip44 (with/without passphrase, external and change chain) and xpub wallets are driven through generate/scan/serialise+reload/lock+unlock sequences; after every step the entries must equal those of a fresh wallet that generated the same total in one batch, scanning must keep exactly the prefix up to the last active address, every entry must satisfy address=addr(pubkey) and pubkey=pub(seckey) under the harness' own curve code, and an xpub wallet must equal the external chain of the bip44 wallet of the same seed.",
          "Collection wallets have no derivation (only the entry-consistency part applies, exercised in C18/C19 runs). Real key generation with the repository's debug self-checks on is slow (~1 s per run), so quick runs are few."),
- "C18": ("exploration", "4.3, 5 C18", "simulated-disk content invariant plus stored-byte corruption (bit-rot fault injection)",
+ "C18": ("exploration", "4.3, 5 C18", "simulated-disk content invariant, interleaved lock/unlock of other wallets, stored-byte corruption (bit-rot) and independently crafted length-lying ciphertexts",
          "For each seeded wallet and cipher: the locked serialisation and every byte string handed to the simulated disk while locked must not contain the seed, last seed, passphrase or any secret key (hex or raw); unlock with the password restores the identical wallet, three wrong passwords are rejected; then the stored secrets field is corrupted (bit flips, truncation, length-prefix edits, metadata edits, emptying) and load+unlock must return an error, never panic or yield different secrets.",
          "Partial: the whole space of ciphertext byte strings is a pure-input claim; corruptions whose scrypt parameters would allocate > 64 MiB are skipped and counted. Default scrypt work factor not exercised (1 GiB)."),
  "C19": ("exploration", "4.3, 5 C19", "seeded wallet-service histories with injected disk errors; memory vs. fresh-service reload after every step",
          "After every operation of a seeded service history (all operation kinds, wrong passwords, unknown ids, failing callbacks, duplicate seeds, temporary wallets; in half the runs a short-write disk error at a drawn step of a save) a fresh NewService on the directory must start and load exactly the non-temporary wallets held in memory, a failed operation must leave memory and the wallet files unchanged, and no two loaded wallets may share a fingerprint.",
          "One recorded known finding (create/unload/create of one seed leaves two files with one fingerprint). Unload is read as memory-only."),
- "C20": ("fault_enumeration", "4.3, 5 C20", "crash-prefix enumeration over the recorded file operations of every save",
+ "C20": ("fault_enumeration", "4.3, 5 C20", "crash-prefix enumeration over the recorded file operations of every save, plus crash-recover-retry for the key-value storage",
          "For every wallet-service or key-value-storage operation that touches the disk, every prefix of the primitive file operations it issued (before each step, after open(O_TRUNC), writes cut at 1 / half / len-1 / a drawn offset, after each step, rename as one step) is materialised and a fresh service/manager must start on it and load, for every file, the previous or the new content.",
          "Ordered-write crash model as in the statement (no reordering across steps, rename atomic); effects of un-seamed calls (IsWritable) are captured by the directory snapshot at the first seamed step. The peers file uses the same SaveBinary path but is exercised only via kvstorage/wallet here."),
  "C10": ("exploration", "4.1, 5 C10", "byzantine relay tampering signed objects in flight between real nodes (deterministic simulation)",
          "In a simulated network of 2-3 real nodes a relay rewrites GIVT/GIVB frames in flight the way a key-less third party can (bit flips in outputs, signatures, inner hash and header fields, negated s, recovery-id variants, r high bit, appended bytes, length field, reordered inputs or transactions); afterwards every transaction in any pool and every block in any chain must be byte-identical to one an honest signer emitted, and every accepted signature must be low-s with recovery id < 4.",
          "Partial: the whole-domain claim over all keys and messages is input enumeration, outside this technique; here mutations ride on the signatures the workload happens to produce. Malleation checks on objects submitted directly (not relayed) are part of C04/C06."),
- "C22": ("exploration", "4.1, 5 C22", "seeded message bursts with arbitrary stream chunking and malformed tails against the real receive path",
+ "C22": ("exploration", "4.1, 5 C22", "phase 1: seeded message bursts with arbitrary chunking and malformed tails against the stepped receive path (E1); phase 2: the real read loop, receive queue and handler as goroutines under a tape-driven scheduler and the race detector (E2)",
          "A correctly introduced scripted peer writes bursts of 1-32 well-formed messages as one byte stream cut at tape-chosen offsets (including inside length prefixes, ids and later frames, and byte-by-byte); the node's replies must correspond one-to-one and in order to the messages sent; malformed tails (length below minimum / above the configured maximum, unknown id, undecodable body, trailing bytes, EOF mid-frame, noise) must disconnect with the matching reason and nothing after them may be processed; panics are violations.",
-         "The receive path is stepped (hook H4: decodeData, convertToMessage, receiveMessage, handlers are the real code; the three per-connection goroutines and the 32-slot receive queue between them are not). Message delivery is observed through replies, so only reply-producing message types are distinguishable."),
- "C23": ("exploration", "4.1, 5 C23", "wire monitor on every frame and send error of real nodes in a simulated network with boundary-seeking workload",
+         "Phase 2 (40 % of the budget) runs the real readLoop, the 32-slot receive queue, the receive loop and sendLoop as goroutines on simulated connections under the E2 scheduler and the race detector: 1-2 well-behaved peers stream bursts cut at arbitrary offsets while the handler is scheduled like any other goroutine (decoded messages queue up while later reads arrive), optionally ending in one malformed frame; the delivered sequence must be exactly the sent one with intact content, nothing after the malformed frame, the matching disconnect reason, no disconnect of a well-formed stream, no race report. In phase 1 the receive path is stepped (hook H4: decodeData, convertToMessage, receiveMessage, handlers are the real code; the three per-connection goroutines and the 32-slot receive queue between them are not). Message delivery is observed through replies, so only reply-producing message types are distinguishable."),
+ "C23": ("exploration", "4.1, 5 C23", "wire monitor on every frame and send error of real nodes in a simulated network; boundary-seeking workload incl. a small-limits profile with a hash-announcing peer",
          "With per-run knobs (maximum outgoing length from its legal minimum, response cap, request count) and a workload that packs the publisher's pool to the block size limit, every frame any node puts on the wire must fit the limit, no message a node built may be refused by its own send step as too long, and every GIVB answering a GETB must contain exactly the longest prefix of the requested blocks that fits (sizes from the harness' own encoder).",
          "Partial: daemon.New refuses limits below one maximum-size block, so GIVP truncation (peer lists are far smaller) and sub-minimum lengths stay pure-function space. With the size limits at their legal minimum (small-limits profile) GETT truncation is reached through a scripted peer announcing up to 256 unknown hashes and checked as longest fitting prefix; ANNT truncation would additionally need a pool of more than (limit-8)/32 transactions and is reached only when the workload happens to build one. GIVT prefix content is not compared (only that the frame fits and the send step accepts it)."),
- "C24": ("exploration", "4.1, 5 C24", "seeded connection-event histories against one real node, bookkeeping compared with the pool's live set after every event",
+ "C24": ("exploration", "4.1, 5 C24", "seeded connection-event histories against one real node (bookkeeping vs. the pool's live set after every event) plus direct event histories on the bookkeeping object alone",
          "Scripted peers on 3 IPs x 3 ports with mirrors in {0, own, A, B} and listen ports in {0, p, q, own}: incoming connects, outgoing attempts and their success/failure, introductions, other messages, disconnects, cull/stale/ping ticks; after every event the connection list must equal the connections the gnet pool really holds plus unresolved attempts, per-IP counts / IP+mirror registry / id map / listen-address map must be exactly what that list implies, state transitions must be legal, and after removing everything all five maps must be empty.",
-         "An incoming connection from exactly the address of a pending outgoing attempt (merged by the node) is kept out of the workload. Sampling."),
+         "A third of the runs drive the bookkeeping object alone (hook H5) with events the pool never produces (second connect for a held address, stale / foreign / zero ids, an introduced peer without listen port that stays, removals with a wrong id): a refused event must leave all maps untouched, an accepted one must change exactly its own entry, the secondary maps must be what the connection list implies. An incoming connection from exactly the address of a pending outgoing attempt (merged by the node) is kept out of the workload. Sampling."),
  "C25": ("exploration", "4.1, 5 C25", "scripted chaos peers with generated introductions and message orders against one real node",
          "Introductions with generated fields and extra bytes (wrong key, versions around the minimum, own mirror, parameters in and out of range, 8 user agents, truncated / extended / length-lying extras) and all other message types in any order on fresh and introduced connections: a connection may become introduced only if an independent predicate on the bytes sent holds, any non-{INTR, DISC, GIVP} message before introduction must disconnect and must not be processed (no reply of the corresponding kind), and no input may panic the node.",
          "The statement gives necessary conditions only; refusing a conforming introduction is counted, not flagged."),
